@@ -4,6 +4,7 @@ import PyPhysim.Proofs.C20Select
 import PyPhysim.Proofs.C20Gpcm
 import PyPhysim.Proofs.C20EigQR
 import PyPhysim.Proofs.C20GmdStep
+import PyPhysim.Proofs.C20GmdInvTop
 import PyPhysim.Generated.C20Conversion
 
 /-!
@@ -700,13 +701,11 @@ end conversions
 section gmd
 
 /-- FULL STATEMENT of the geometric-mean-decomposition clause (real case), about the
-    executable model `gmd` of `Model/C20Gmd.lean`: for every full SVD with positive
-    non-increasing singular values and `σ̄` their geometric mean, the sweep returns
-    `Q, R, P` with `Q R Pᵀ = U Σ Vᵀ`, orthonormal `Q`, `P`, upper-triangular `R` with
-    constant diagonal `σ̄`.  NOT PROVED: the loop invariant through the permutation
-    bookkeeping is not formalised; the clause is checked numerically on every case by the
-    oracle `gmd` of the harness, the model is tied to the code by correspondence, and the
-    algebra of each Givens step is `gmd_rotation_step_partial`. -/
+    executable model `gmd` of `Model/C20Gmd.lean` (arrays, `Except PyErr`, statement by statement
+    the code of `util.misc.gmd`): for every full SVD with positive non-increasing singular values
+    and `σ̄` their geometric mean, the sweep raises nothing (every array access is in range) and
+    returns `Q, R, P` with `Q R Pᵀ = U Σ Vᵀ`, orthonormal `Q`, `P`, upper-triangular `R` with
+    constant diagonal `σ̄`.  PROVED: `gmd_correct`. -/
 def GmdStatement : Prop :=
   ∀ (m n : Nat) (U : Mat ℝ m m) (V : Mat ℝ n n) (S : Fin (min m n) → ℝ) (sb : ℝ),
     0 < min m n → matMul (cT U) U = eye → matMul (cT V) V = eye →
@@ -720,13 +719,57 @@ def GmdStatement : Prop :=
        (∀ i j, j.val < i.val → Rm i j = 0) ∧
        (∀ i j, i.val = j.val → i.val < min m n → Rm i j = sb))
 
-/-- PARTIAL (the algebraic core of the sweep): in every rotating step — the pivot pair
+/-- THE GEOMETRIC MEAN DECOMPOSITION IS CORRECT (real case; all sizes `m × n`, any number of
+    singular values).  Proof (`Proofs/C20GmdInv*.lean`): loop invariant after `k` iterations —
+    `Q`, `P` have orthonormal columns and `A·P = Q·R_k`, where `R_k` is the stored `R` in its
+    first `k` columns, `(z[0:k], d[k])` in column `k`, `d[b]` on the diagonal for `k < b < p`
+    (`MInv`); the unused singular values are the ranks `large … small`, `perm`/`invperm` are
+    mutually inverse between these ranks and the positions `k < q < p` of `d`, and
+    `d[k] · ∏ S[large..small] = σ̄^(p−k)` (`BInv`).  The product invariant forces a partner on the
+    other side of `σ̄` (`pick_small_cs`, `pick_large_cs`; the `flag` branch is taken only when
+    `d[k] = σ̄`, never when `d[k] < σ̄`), so the rotation parameters satisfy `c² + s² = 1`,
+    `c² δ1² + s² δ2² = σ̄²`, from which the step algebra follows (`MInv.rot`, `BInv.step`).  The
+    invariant holds initially by the SVD contract (`init_inv`), is preserved (`Inv.step`), implies
+    that every index read is in range (`Inv.bounds`), and at `k = p − 1` gives the five
+    conclusions (`Inv.final`).  The array / `Except` model refines the abstract step
+    (`gmdStep_refines`, `sweep_ok`, `finish_ok`).
+    Complex matrices: NOT covered by this theorem (the model is the same text instantiated at a
+    complex scalar; that case rests on the correspondence and the per-case contract oracle). -/
+theorem gmd_correct : GmdStatement :=
+  fun m n U V S sb hp hU hV hS hmono hsb hprod =>
+    GmdInv.gmd_sound m n U V S sb hp hU hV hS hmono hsb hprod
+
+/-- the existence of a straddling partner, stated on its own: if the pivot `d[k] ≥ σ̄` and
+    `d[k] · ∏ S[lo..hi) = σ̄^(hi−lo+1)` with positive `S`, the smallest remaining value `S sm` is
+    either `< σ̄` (a rotation with well-defined parameters) or the pivot already equals `σ̄`
+    (`flag`: `c = 1, s = 0` is then exact); in both cases `c² + s² = 1`, `c² d[k]² + s² (S sm)² = σ̄²` -/
+theorem gmd_partner_small (S : Nat → ℝ) (sb dk : ℝ) (lo hi sm : Nat) (hsb : 0 < sb)
+    (Spos : ∀ r ∈ Finset.Ico lo hi, 0 < S r) (hmin : ∀ r ∈ Finset.Ico lo hi, S sm ≤ S r)
+    (hsm : sm ∈ Finset.Ico lo hi)
+    (hprod : dk * ∏ r ∈ Finset.Ico lo hi, S r = sb ^ (hi - lo + 1)) (hge : sb ≤ dk) :
+    (gmdCS (decide (sb ≤ S sm)) sb dk (S sm)).1 ^ 2 + (gmdCS (decide (sb ≤ S sm)) sb dk (S sm)).2 ^ 2 = 1 ∧
+    (gmdCS (decide (sb ≤ S sm)) sb dk (S sm)).1 ^ 2 * dk ^ 2 +
+      (gmdCS (decide (sb ≤ S sm)) sb dk (S sm)).2 ^ 2 * S sm ^ 2 = sb ^ 2 :=
+  GmdInv.pick_small_cs S sb dk lo hi sm hsb Spos hmin hsm hprod hge
+
+/-- … and if the pivot `d[k] < σ̄` the largest remaining value is `> σ̄`: the code's `flag` test
+    `d[i] <= sigma_bar` never fires in exact arithmetic, the rotation is always performed -/
+theorem gmd_partner_large (S : Nat → ℝ) (sb dk : ℝ) (lo hi lg : Nat) (hsb : 0 < sb) (hdk : 0 < dk)
+    (Spos : ∀ r ∈ Finset.Ico lo hi, 0 < S r) (hmax : ∀ r ∈ Finset.Ico lo hi, S r ≤ S lg)
+    (hlg : lg ∈ Finset.Ico lo hi)
+    (hprod : dk * ∏ r ∈ Finset.Ico lo hi, S r = sb ^ (hi - lo + 1)) (hlt : dk < sb) :
+    ¬ S lg ≤ sb ∧
+    (gmdCS (decide (S lg ≤ sb)) sb dk (S lg)).1 ^ 2 + (gmdCS (decide (S lg ≤ sb)) sb dk (S lg)).2 ^ 2 = 1 ∧
+    (gmdCS (decide (S lg ≤ sb)) sb dk (S lg)).1 ^ 2 * dk ^ 2 +
+      (gmdCS (decide (S lg ≤ sb)) sb dk (S lg)).2 ^ 2 * S lg ^ 2 = sb ^ 2 :=
+  ⟨GmdInv.pick_large_flag_never S sb dk lo hi lg hsb Spos hmax hprod hlt,
+   GmdInv.pick_large_cs S sb dk lo hi lg hsb hdk Spos hmax hlg hprod hlt⟩
+
+/-- the algebraic core of one rotating step (kept from the earlier, partial version; it is what
+    `MInv.rot` uses): the pivot pair
     `δ1, δ2` straddles the geometric mean `σ̄` — the parameters `c, s` the code computes make
     `G1` and `G2` orthogonal and `G2ᵀ · diag(δ1, δ2) · G1 = [[σ̄, x], [0, y]]` with exactly the
-    `x` stored in `z[k]` and the `y` stored back in `d[k+1]`; so each step keeps
-    `Qᵀ A P` upper triangular, fixes one more diagonal entry to `σ̄`, and keeps `Q`, `P`
-    orthonormal.  What is missing for `GmdStatement`: the invariant across steps
-    (permutation arrays, the `z` column updates, existence of a straddling partner). -/
+    `x` stored in `z[k]` and the `y` stored back in `d[k+1]`. -/
 theorem gmd_rotation_step_partial (sb d1 d2 : ℝ) (hsb : 0 < sb)
     (h : (0 ≤ d2 ∧ d2 < sb ∧ sb ≤ d1) ∨ (0 ≤ d1 ∧ d1 < sb ∧ sb ≤ d2)) :
     let cs := gmdCS false sb d1 d2
@@ -753,6 +796,13 @@ theorem gmd_flag_step (sb d2 : ℝ) (hsb : sb ≠ 0) :
 
 /-- non-vacuity: `σ̄ = 2`, `δ1 = 4`, `δ2 = 1` straddle -/
 example : (0 : ℝ) ≤ 1 ∧ (1 : ℝ) < 2 ∧ (2 : ℝ) ≤ 4 := by norm_num
+
+/-- non-vacuity of `GmdStatement`: `m = n = 2`, `U = V = 1`, `S = (4, 1)`, `σ̄ = 2` satisfy every
+    hypothesis (the sweep then performs one genuine rotation) -/
+example : ∃ (U V : Mat ℝ 2 2) (S : Fin (min 2 2) → ℝ) (sb : ℝ),
+    0 < min 2 2 ∧ matMul (cT U) U = eye ∧ matMul (cT V) V = eye ∧ (∀ i, 0 < S i) ∧
+    (∀ i j, i ≤ j → S j ≤ S i) ∧ 0 < sb ∧ sb ^ (min 2 2) = ∏ i, S i :=
+  ⟨eye, eye, GmdInv.exS, 2, GmdInv.ex_hyps⟩
 
 end gmd
 
